@@ -160,6 +160,85 @@ def texts(toks):
     return [t.text for t in toks]
 
 
+KEYWORDS = {"as", "break", "const", "continue", "crate", "else", "enum", "extern", "false", "fn", "for", "if", "impl", "in", "let", "loop",
+            "match", "mod", "move", "mut", "pub", "ref", "return", "self", "Self", "static", "struct", "super", "trait", "true", "type",
+            "unsafe", "use", "where", "while", "dyn", "Some", "None", "Ok", "Err"}
+
+
+def _depths(texts_):
+    """bracket depth BEFORE each token position (len+1 entries)"""
+    d = 0
+    out = []
+    for t in texts_:
+        if t in (")", "]", "}"):
+            d -= 1
+        out.append(d if t not in (")", "]", "}") else d + 1)
+        if t in ("(", "[", "{"):
+            d += 1
+    out.append(d)
+    return out
+
+
+def rename_map(code0, code1, sm=None):
+    """Consistent renaming of locals between two token lists: identifier X of code0 is aligned with identifier Y of code1 at
+    every 1-1 replaced occurrence, X does not occur in code1 and Y does not occur in code0.  -> {X: Y}"""
+    a = texts(code0)
+    b = texts(code1)
+    if sm is None:
+        sm = difflib.SequenceMatcher(None, a, b, autojunk=False)
+    ren = {}
+    bad = set()
+    for tag, i1, i2, j1, j2 in sm.get_opcodes():
+        if tag == "replace" and i2 - i1 == j2 - j1:
+            for k in range(i2 - i1):
+                ta, tb = code0[i1 + k], code1[j1 + k]
+                if ta.kind == "id" and tb.kind == "id" and ta.text != tb.text:
+                    if ren.get(ta.text, tb.text) != tb.text:
+                        bad.add(ta.text)
+                    ren[ta.text] = tb.text
+    sa, sb = set(a), set(b)
+    ren = {x: y for x, y in ren.items() if x not in bad and x not in sb and y not in sa and x not in KEYWORDS and y not in KEYWORDS}
+    # injective
+    if len(set(ren.values())) != len(ren):
+        return {}
+    return ren
+
+
+def apply_renaming(toks, ren):
+    """rename identifier tokens (not field/method/path segments, not struct-literal field names)"""
+    out = []
+    n = len(toks)
+    for q, t in enumerate(toks):
+        if t.kind == "id" and t.text in ren and not (q > 0 and toks[q - 1].text in (".", "::")):
+            if q + 1 < n and toks[q + 1].text == ":" and toks[q + 1].kind == "punct" and _in_struct_literal(toks, q):
+                out.append(t)
+                continue
+            out.append(Tok(t.kind, ren[t.text], t.line, t.sp))
+        else:
+            out.append(t)
+    return out
+
+
+def _in_struct_literal(toks, q):
+    """toks[q] is followed by ':'; is it a field name of a struct literal/pattern `Name { f: .. }` (as opposed to a binder `|x: T|` or `let x: T`)?"""
+    depth = 0
+    k = q - 1
+    while k >= 0:
+        tx = toks[k].text
+        if tx in (")", "]", "}"):
+            depth += 1
+        elif tx in ("(", "[", "{"):
+            if depth == 0:
+                return tx == "{" and k > 0 and toks[k - 1].kind == "id" and toks[k - 1].text[:1].isupper()
+            depth -= 1
+        elif tx == "|" and depth == 0:
+            return False
+        elif tx in (";", "let") and depth == 0:
+            return False
+        k -= 1
+    return False
+
+
 def merge(code0, anns, code1):
     """Insert annotation chunks (anchored in code0) into code1 by token alignment.
     Returns list of (origin, tok) with origin 'src' or 'ann'; and drift = #tokens differing."""
@@ -197,8 +276,44 @@ def merge(code0, anns, code1):
                 pos_map[i] = eq_prev[i]
     out = []
     by_pos = {}
-    for pos, chunk in anns:
-        by_pos.setdefault(pos_map[pos], []).extend(chunk)
+    if a != b:
+        ren = rename_map(code0, code1, sm)
+        if ren:
+            DRIFT_LOG.append("annotations follow local renaming(s): %s" % ", ".join("%s->%s" % kv for kv in sorted(ren.items())))
+            anns = [(pos, apply_renaming(chunk, ren)) for pos, chunk in anns]
+        # structural repair: an annotation keeps the bracket depth it has in the template, and a statement-level
+        # annotation (proof block, assert, let ghost) sits at a statement boundary.  When the aligned position violates
+        # that (the surrounding code changed shape), it moves to the nearest position that satisfies it.
+        da = _depths(a)
+        db = _depths(b)
+
+        def ok_at(j, depth, stmt):
+            if db[j] != depth:
+                return False
+            if stmt and j > 0 and b[j - 1] not in (";", "{", "}"):
+                return False
+            return True
+
+        for pos, chunk in anns:
+            j = pos_map[pos]
+            first = chunk[0].text if chunk else ""
+            stmt = first in ("proof", "assert", "assume", "reveal", "let") and da[pos] >= 1
+            if not ok_at(j, da[pos], stmt):
+                best = None
+                for d in range(1, len(b) + 1):
+                    for k in (j + d, j - d):       # forward first: trailing hints talk about the final state
+                        if 0 <= k <= len(b) and ok_at(k, da[pos], stmt):
+                            best = k
+                            break
+                    if best is not None:
+                        break
+                if best is not None:
+                    DRIFT_LOG.append("annotation `%s ...` re-anchored from token %d to %d (depth %d)" % (first, j, best, da[pos]))
+                    j = best
+            by_pos.setdefault(j, []).extend(chunk)
+    else:
+        for pos, chunk in anns:
+            by_pos.setdefault(pos_map[pos], []).extend(chunk)
     for j in range(len(code1) + 1):
         for t in by_pos.get(j, []):
             out.append(("ann", t))
@@ -218,6 +333,7 @@ class Region:
         self.rewrites_applied = {}
         self.name = "%s:%s" % (file, " ".join(path))
         self.gen_lines = (0, 0)
+        self.renamed = {}
 
 
 class Unit:
@@ -438,6 +554,17 @@ class Unit:
             raise ExtractError("lost anchor: item `%s` not found (or ambiguous) in %s" % (" ".join(reg.path), reg.file))
         code1 = [Tok(t.kind, t.text, t.line, t.sp) for t in toks[item.start:item.end]]
         ctx = {"file_toks": toks}
+        # alpha-normalisation: locals that were consistently renamed in the source are renamed back to the names the
+        # contract (and the rewrite rules) use; X must not occur in the source, so no capture is possible
+        try:
+            pre0, _ = erase_ghost(ttoks)
+            back = {y: x for x, y in rename_map(pre0, code1).items()}
+        except (ValueError, IndexError):
+            back = {}
+        if back:
+            code1 = apply_renaming(code1, back)
+            reg.renamed = dict(back)
+            DRIFT_LOG.append("locals renamed back to the contract's names: %s" % ", ".join("%s->%s" % kv for kv in sorted(back.items())))
         for r in reg.rules:
             code1, cnt = rewrites.apply(r, code1, ctx)
             reg.rewrites_applied[r] = cnt
